@@ -36,6 +36,38 @@ CLAIMED = {
         technique="Lean 4 executable model + denotational spec + table tie (decide) + exhaustive "
                   "differential correspondence",
         ref="6 C02"),
+    "C04": dict(
+        text="Lean 4 theorems about the evaluation model: the n-ary label product (itertools.product) "
+             "and the n-ary data product (get_interaction_matrix folded with reduce) enumerate columns in "
+             "one common order for any arity and any column counts (C04_product_order), the group-specific "
+             "labels e|g and the Khatri-Rao columns likewise (C04_group_label), full and reduced treatment "
+             "columns are exactly the indicators of the level their label names for every level count and "
+             "reference (C04_indicator_full / _reduced). An independent label decoder (Spec.C04) is "
+             "evaluated by the driver on the labels and matrices of real designs; the evaluation model is "
+             "compared with the implementation entry by entry.",
+        note="Trusted: Lean kernel; pandas dtype inference / Categorical codes / numpy indexing as "
+             "modelled in Model/Matrices.lean; coding decisions (full/reduced) are inputs observed from "
+             "the implementation (they are C03's subject); sum-coded and spline/poly columns are not "
+             "judged by the decoder.",
+        technique="Lean 4 proof (list induction on flatMap/zip) + independent label-decoder spec "
+                  "evaluated on real output + model correspondence",
+        ref="6 C04"),
+    "C13": dict(
+        text="Lean 4 model of Treatment / Sum / CategoricalBox / C,T,S with 31 theorems for every number "
+             "of levels and every reference / omitted level: shapes, reference row zero, zero-sum columns, "
+             "explicit two-sided inverses of [1|T] and [1|S] (full rank with the constant), spanning of all "
+             "indicators, labels name the columns, levels= fixes the order, aliases; registry and default "
+             "arguments extracted from the live modules and tied by `decide`. Exhaustive differential run "
+             "for n <= 12 and every reference, all permutations of <= 5 levels, alias groups; the spec "
+             "predicates are evaluated by the driver on the implementation's matrices; the interchange "
+             "clause is proved at the factor-space level and tested on designs by exact column-space "
+             "comparison.",
+        note="Trusted: Lean kernel; translator; the tensor-basis step from factor spaces to the whole "
+             "design matrix is mathematics outside Lean (validated by exact rational rank on every explored "
+             "design); custom Encoding subclasses and NaN data are not modelled.",
+        technique="Lean 4 proof (entrywise matrix identities over Int/Rat, no Mathlib) + registry "
+                  "translator + exhaustive differential correspondence",
+        ref="6 C13"),
     "C11": dict(
         text="Lean 4 model of VarLookupDict / Environment.capture / the namespace wiring of "
              "design_matrices and Call.set_type, with 31 theorems for any number of scopes and any "
